@@ -46,7 +46,7 @@ def main():
     shutil.copytree(os.path.join(wt, "demo"), os.path.join(dst, "demo"), ignore=shutil.ignore_patterns("target", "Cargo.lock"))
     if os.path.exists(os.path.join(wt, "REPORT.md")):
         shutil.copy(os.path.join(wt, "REPORT.md"), dst)
-    meta = {"kind": "sub-agent mutation (seventeenth batch, eleventh adversarial round)",
+    meta = {"kind": "sub-agent mutation (eighteenth batch, twelfth adversarial round)",
             "property_given": pid, "breaks": [pid], "also_run": also, "what": what,
             "confirmed": "in scratch worktree %s: `cargo test --offline` 136+7 pass with the change; demo exits %s with the change and 0 without (git apply -R)" % (wt, with_rc),
             "source": "independent sub-agent given only the property text, a scratch worktree and the list of code sites already used by earlier agents"}
